@@ -249,6 +249,8 @@ def _build(spec, rso_mod=None, variant=None):
         elif ch == 'y':
             ys = [m.ldr(r['n']) for r in spec['rules']]
     B.xs, B.zs, B.ys = xs, zs, ys
+    if variant.get('extra_rvar'):
+        m.rvar(int(variant['extra_rvar']))      # an unused random variable declared up front
     zoff = np.concatenate(([0], np.cumsum(spec['zsplit'])))
     xoff = np.concatenate(([0], np.cumsum(spec['xsplit'])))
     # adaptation; the unused late random variable is declared either after all adapt() calls or
